@@ -386,9 +386,26 @@ type scene struct {
 	v, r, o *world.Node
 }
 
-func newScene(rng *rand.Rand) *scene {
+func newScene(rng *rand.Rand) *scene { return newSceneMode(rng, "") }
+
+// newSceneMode: the victim (and, so that announcements still reach it, the relay) may run in lite mode, or the victim
+// as a stub - rarely used options under which the router takes other paths through the announcement handler.
+func newSceneMode(rng *rand.Rand, mode string) *scene {
 	lab := func() m.SwitchLabel { return m.SwitchLabel(1 + rng.Intn(16000)) }
-	ms, err := mesh.New(3, []mesh.Edge{{A: 1, B: 2, LA: lab(), LB: lab()}, {A: 2, B: 3, LA: lab(), LB: lab()}}, mesh.Opts{})
+	opts := mesh.Opts{}
+	if mode != "" {
+		opts.Cfg = func(i int) config.Store {
+			var cs config.Store
+			switch {
+			case mode == "lite" && (i == 1 || i == 2):
+				cs.Router.Lite = true
+			case mode == "stub" && i == 1:
+				cs.Router.Stub = true
+			}
+			return cs
+		}
+	}
+	ms, err := mesh.New(3, []mesh.Edge{{A: 1, B: 2, LA: lab(), LB: lab()}, {A: 2, B: 3, LA: lab(), LB: lab()}}, opts)
 	if err != nil {
 		panic(err)
 	}
@@ -558,7 +575,8 @@ func signingContext(data []byte) []byte {
 
 // entry: a hop record inside an announcement forwarded by the (authenticated) peer R
 func presentHop(c *vf.Ctx, a act, rng *rand.Rand) (obs, bool, forged) {
-	s := newScene(rng)
+	mode := []string{"", "", "lite", "lite", "stub"}[rng.Intn(5)]
+	s := newSceneMode(rng, mode)
 	f := forge(a, rng, s.o.ID.IP) // "known": the origin's address, which the victim learns from the same announcement... use a router the victim already knows
 	if a.IP == "known" {
 		f = forge(a, rng, s.r.ID.IP)
@@ -639,6 +657,9 @@ func presentHop(c *vf.Ctx, a act, rng *rand.Rand) (obs, bool, forged) {
 	o.Session, o.Stored, o.BoundKey = keyOf(s.v, f.pub.IP, f, prev)
 	if deeper {
 		o.Detail = "[3 records, presented in the middle] " + o.Detail
+	}
+	if mode != "" {
+		o.Detail = "[victim in " + mode + " mode] " + o.Detail
 	}
 	return o, true, f
 }
